@@ -173,6 +173,7 @@ func transactOnConn(ctx context.Context, conn *sql.DB, b beginnable,
 		return
 	}
 
+	var returned bool
 	defer func() {
 		if p := recover(); p != nil {
 			if e := tx.Rollback(); e != nil {
@@ -184,10 +185,16 @@ func transactOnConn(ctx context.Context, conn *sql.DB, b beginnable,
 			if e := tx.Rollback(); e != nil {
 				err = fmt.Errorf("transaction failed: %s, rollback failed: %w", err, e)
 			}
+		} else if !returned {
+			// fn never returned (runtime.Goexit, e.g. t.FailNow inside the body):
+			// the transaction did not succeed, it must not be committed.
+			_ = tx.Rollback()
 		} else {
 			err = tx.Commit()
 		}
 	}()
 
-	return fn(ctx, tx)
+	err = fn(ctx, tx)
+	returned = true
+	return err
 }
